@@ -334,7 +334,8 @@ def check_property(pid, tier, seed):
         nec_refs = [r for r in nec_refs if r not in dead]
         sup_refs = (set(expand_refs(vr, alt.get("supporting", []), alt.get("exclude", ()))) | set(dead)) - set(nec_refs)
         refs = nec_refs + sorted(sup_refs)
-        needed_fns = sorted(set(r.split("|")[0] for r in refs))
+        # functions the alternative names, including those under contract through trait-level clauses only (no labelled clause of their own)
+        needed_fns = sorted(set(r.split("|")[0] for r in refs) | set(f for f, _ in alt.get("clauses", [])) | set(f for f, _ in alt.get("supporting", [])))
         failed = []        # necessary obligations that failed verification: the violation
         supporting = []    # value / completeness clauses the proof goes through: their failure needs confirmation on the real code
         undecided = []
@@ -348,12 +349,16 @@ def check_property(pid, tier, seed):
                 undecided.append(f"LOST-ANCHOR: clause {r} not found in contracts/")
             elif r in main["failed_clauses"]:
                 (supporting if r in sup_refs else failed).append(("clause", r, main["failed_clauses"][r][0]))
-        nec_fns = set(r.split("|")[0] for r in nec_refs)
+        # trait-level clauses (declared on the prelude trait, e.g. `r == Self::de_res(..)`) are necessary only where the alternative asks for
+        # EVERY clause of the function ('*'); where it names specific labels, the rest of the function's contract is supporting
+        nec_fns = set(f for f, lab in alt.get("clauses", []) if lab == "*")
+        sup_fns = set(f for f, lab in alt.get("supporting", []) if lab == "*")
         for k, v in main["failed_clauses"].items():
             fn, lab = k.split("|", 1)
-            if lab.startswith("trait:") and fn in needed_fns:
-                # a trait-level clause (declared on the prelude trait) of a function this alternative only lists as supporting stays supporting
-                (failed if fn in nec_fns else supporting).append(("clause", k, v[0]))
+            if lab.startswith("trait:") and fn in nec_fns:
+                failed.append(("clause", k, v[0]))
+            elif lab.startswith("trait:") and fn in sup_fns:
+                supporting.append(("clause", k, v[0]))
         for th in alt.get("theorems", []):
             if th not in main["theorem_names"]:
                 undecided.append(f"LOST-ANCHOR: theorem {th} missing from verus/theorems.rs")
